@@ -2,7 +2,7 @@
 From Coq Require Import List NArith Bool.
 From Frugal Require Import Bytes Wire Skip Values Desc Spec Encode Decode Checks Tags State Bitset Alloc DescMap Conc LegacyDefs.
 From Frugal.gen Require Import Params.
-From Frugal.proofs Require Import GenParams EncodeSpec RoundTrip.
+From Frugal.proofs Require Import GenEncParams EncodeSpec RoundTrip.
 From Frugal.props Require Import Examples.
 Import ListNotations.
 
@@ -27,7 +27,7 @@ Proof. exact emits_spec. Qed.
    byte-level decoder is proved equal (C03_decode_is_absorb) -- and the round trip returns
    norm (C01), in which an omitted optional field keeps the destination's default. *)
 Theorem C10_roundtrip_defaults : forall env sid v,
-  params_ok = true -> env_ok env = true -> init_ok env = true ->
+  enc_params_ok = true -> env_ok env = true -> init_ok env = true ->
   has_type env (TStruct sid) v = true -> req_complete env (TStruct sid) v = true ->
   absorb_top env sid (denote env (TStruct sid) v) (fresh env sid) = AOk (norm_top env sid v).
 Proof. exact absorb_top_denote. Qed.
@@ -41,5 +41,5 @@ Proof. split; vm_compute; reflexivity. Qed.
 
 (* the side conditions on the generated constants and tables that the theorems above assume hold
    for what the translator read from the sources of this run *)
-Theorem C10_side_conditions : params_ok = true.
-Proof. exact params_ok_holds. Qed.
+Theorem C10_side_conditions : enc_params_ok = true.
+Proof. exact enc_params_ok_holds. Qed.
